@@ -1583,6 +1583,10 @@ def _install():
             if fv.kind == "__contains__":
                 node = ast.Compare(left=ast.Name(id="__i", ctx=ast.Load()), ops=[ast.In()], comparators=[ast.Name(id="__b", ctx=ast.Load())])
                 return self.ev(ast.fix_missing_locations(node), {"__b": fv.target, "__i": args[0]}, depth)
+        if isinstance(fv, TypeV) and fv.kind == "builtin" and fv.name in ("float", "int") and len(args) == 1 and isinstance(args[0], SVal):
+            return args[0]          # float(x) / int(x) of a symbolic number, used as a value (map(float, xs))
+        if isinstance(fv, TypeV) and fv.kind == "builtin" and fv.name == "float" and len(args) == 1 and _is_num(args[0]):
+            return float(args[0])
         if isinstance(fv, TypeV) and fv.kind == "builtin" and fv.name == "str" and len(args) == 1 and isinstance(args[0], (TypeV, Sym, str, int)):
             return args[0].name if isinstance(args[0], TypeV) else args[0].tag if isinstance(args[0], Sym) else str(args[0])
         if isinstance(fv, Sym) and fv.tag.count(".") == 1 and fv.tag.split(".")[0] in env and not any(ch in fv.tag for ch in "([ :~") \
